@@ -4,6 +4,16 @@ Helper lemmas for the Blake properties (C15, C08/C20 shares): the square root wr
 coincides with a differentiable one on an open set.
 -/
 import EPV.Support
+import EPV.Tactics
+
+set_option hygiene false in
+/-- for a hypothesis `h : M.outcome p = .ok` on a model with a deep decision tree: split the tree of
+`outcome` only (one tree instead of one per field), discard the non-`ok` paths, evaluate every other
+tree-level definition along the path found, and run the given tactic on each accepting path.
+Does the same as `epv_on_leaves`, in time linear in the number of fields. -/
+macro "epv_paths " t:tacticSeq : tactic =>
+  `(tactic| (simp only [epv_tree] at h
+             split_ifs at h <;> first | epv_absurd | (simp only [epv_tree, *, if_true, if_false]; ($t))))
 
 namespace EPV.Blake
 
